@@ -9,7 +9,7 @@ import numpy as np
 from .common import Violation, HarnessError, dec_key, dec_label, sort_key
 from .refpoly import RefPoly, BOOL, SPIN, frac
 from .refcons import RefConstraints, check_penalty, RELS
-from .e1_pool import Slot, MATRIX, DEG2, LABELLED, CONSTRAINED, okey, brief
+from .e1_pool import Slot, MATRIX, DEG2, LABELLED, CONSTRAINED, okey, brief, maxabs
 
 
 # ===================================================================== copies
@@ -426,7 +426,7 @@ def do_pure(w, op):
             else:
                 ran = False
         elif call == "as_constraint_operand":
-            ok = A.shadow.is_integer() and len(A.shadow.variables()) <= 4 and A.shadow.degree() <= 3
+            ok = A.shadow.is_integer() and len(A.shadow.variables()) <= 4 and A.shadow.degree() <= 3 and maxabs(A.shadow) <= (1 << 16)
             if ok and (A.t != "dict" or all(len(set(k)) == len(k) for k in keys)):
                 tmp = (qv.PCBO if b else qv.PCSO)()
                 rel = rnd.choice(RELS)
@@ -522,7 +522,7 @@ def do_cons(w, op):
             Parg[dec_key(k)] = Parg.get(dec_key(k), 0) + v
         Pref = RefPoly(w.kind, Parg)
         Parg = {k: v for k, v in Parg.items()}
-    if not Pref.is_integer() or len(Pref.variables()) > 4 or Pref.degree() > 3:
+    if not Pref.is_integer() or len(Pref.variables()) > 4 or Pref.degree() > 3 or maxabs(Pref) > (1 << 16):
         return "skipped"
     if any(str(v).startswith("__a") for v in Pref.variables()):
         return "skipped"
